@@ -863,6 +863,7 @@ def wrap_mock(orig, kind):
             except Exception as ex:  # noqa: BLE001
                 out["struct"] = exn_name(ex)
             out["store"] = c20.store_view(store, [p["name"] for p in out["mem"]["nprops"]], [p["name"] for p in out["mem"]["eprops"]])
+            out["layout"] = c20.store_layout(store)
         rec["view"] = json.loads(json.dumps(out, default=repr))
 
     return make_wrapper(kind if kind in ("dummy", "mock") else f"create_{kind}", orig, pre, post)
